@@ -158,6 +158,22 @@ check('C17', 'http',
       'tuples of adapters not exercised.',
       'DESIGN.md section 4, C17')
 
+ENGINES['xls'] = ('specs/xls', ['C18'], 'XlsRead.tla (sheet builder, end rules, ladder fill-down with origins, TLC: '
+                  'OriginsHold, LadderEquivalence); driver harness/drivers/c18.py (mock worksheets)')
+check('C18', 'xls',
+      'TLA+ spec of the table reader (title binding, ranged column group, end-of-table rules, ladder fill-down with '
+      'origins); TLC checks origin/value consistency and ladder equivalence on every sheet; every TLC-built sheet is '
+      'read by the real iter_table/read_table and objects, values and origins compared',
+      'TLC enumerates 8 column layouts x leading blank rows x both end rules x ladder/plain x all cell contents over '
+      '{blank,a,b} for 1 (quick) / 2 (thorough) data rows with and without trailing content, and simulates sheets of '
+      'up to 4 rows; invariants OriginsHold and LadderEquivalence hold on the spec; the real reader must return the '
+      'same objects (None for blank keys), attribute values, per-attribute / per-key / range origins, defaults for the '
+      'missing optional and the external attribute, and the ladder reading must equal the plain reading of the '
+      'filled-in sheet produced by the spec.',
+      'Trusted: TLC; mock worksheet (cells with value/coordinate/parent.title). Rule-set shape fixed as in the evidence '
+      'assumptions; distinct column titles.',
+      'DESIGN.md section 4, C18')
+
 ALL = ['C%02d' % i for i in range(1, 21)]
 
 
